@@ -5,6 +5,7 @@ Property theorems only (helper lemmas live in Emboss/Lemmas/Deps.lean).
 Model: Emboss/Model/Deps.lean (mirrors dependency_checker.py).
 -/
 import Emboss.Lemmas.Deps
+import Emboss.Lemmas.TarjanMain
 namespace Emboss.Deps
 
 /-- Every field of `fields_in_dependency_order` comes after all fields (or runtime
@@ -49,5 +50,105 @@ example :
     order exDeps [7] [0, 1, 2] = [1, 2, 0] ∧ TopoFrom exDeps [7] [2, 0, 1] ∧
       ¬ TopoFrom exDeps [7] [0, 1, 2] := by
   decide
+
+/-! ## Cycle detection (`_find_cycles`, Tarjan as written in dependency_checker.py) -/
+
+/-- The final state of `_find_cycles` on a graph all of whose destinations are keys:
+never out of fuel, invariant holds, stack empty, every key indexed. -/
+theorem tarjan_final (g : Graph) (hc : closed g = true) :
+    Inv g (tarjan g (keys g).length) ∧ (tarjan g (keys g).length).stack = [] ∧
+      ∀ v ∈ keys g, indexed (tarjan g (keys g).length) v = true := by
+  have h := tarjanLoop_spec (closed_edge hc) (keys g).length (keys g) TState.init (Inv.init g) rfl
+    (fun v hv => hv) (List.countP_le_length)
+  exact ⟨h.1, h.2.1, h.2.2.2⟩
+
+/-- `C15_terminates`: recursion depth (the model's fuel) never exceeds the number of keys:
+`_find_cycles` returns for every graph (or raises `KeyError` when a destination is not a
+key — never for the graphs `_find_dependencies` builds). -/
+theorem C15_terminates (g : Graph) : findCycles g ≠ .outOfFuel := by
+  unfold findCycles findCyclesFuel
+  cases hc : closed g
+  · simp
+  · have := (tarjan_final g hc).1.noOof
+    simp [this]
+
+/-- `C15_tarjan_sccs` (full statement, proved): the components reported by `_find_cycles`
+are exactly the strongly connected components that contain a cycle — each reported list is
+duplicate-free, is a class of mutual reachability, and consists of nodes that depend on
+themselves; every node that depends on itself is in some reported component; and
+reported components are pairwise disjoint (no SCC is reported twice).  The statement does
+not mention the order in which keys or successors are iterated: the *set* of components
+is independent of Python's set/dict iteration order (`C15_order_independent`). -/
+theorem C15_tarjan_sccs (g : Graph) (cs : List (List Nat)) (h : findCycles g = .ok cs) :
+    (∀ C ∈ cs, C.Nodup ∧ IsSCC g C ∧ ∀ a ∈ C, cyclic g a) ∧
+    (∀ a, cyclic g a → ∃ C ∈ cs, a ∈ C) ∧
+    cs.Pairwise (fun C D => ∀ a ∈ C, a ∉ D) := by
+  unfold findCycles findCyclesFuel at h
+  cases hc : closed g
+  · simp [hc] at h
+  · obtain ⟨hinv, hstk, hall⟩ := tarjan_final g hc
+    simp only [hc, Bool.true_eq_false, if_false, hinv.noOof] at h
+    injection h with h
+    subst h
+    refine ⟨fun C hC => ?_, fun a ha => ?_, hinv.compsDisj⟩
+    · obtain ⟨_, h2, h3, h4⟩ := hinv.compsOk C hC
+      exact ⟨h3, h2, h4⟩
+    · obtain ⟨b, he, _⟩ := ReachP.head ha
+      exact hinv.compsAll a (hall a (edge_src_key he)) (by simp [hstk]) ha
+
+/-- `C15_cycle_iff`: a "Dependency cycle" error is produced exactly when some definition
+depends on itself through references. -/
+theorem C15_cycle_iff (g : Graph) (cs : List (List Nat)) (h : findCycles g = .ok cs) :
+    cs ≠ [] ↔ ∃ a, cyclic g a := by
+  obtain ⟨h1, h2, _⟩ := C15_tarjan_sccs g cs h
+  constructor
+  · intro hne
+    cases cs with
+    | nil => exact absurd rfl hne
+    | cons C rest =>
+      obtain ⟨_, hscc, hcyc⟩ := h1 C (by simp)
+      cases C with
+      | nil => exact absurd rfl hscc.1
+      | cons a _ => exact ⟨a, hcyc a (by simp)⟩
+  · intro ⟨a, ha⟩ hnil
+    obtain ⟨C, hC, _⟩ := h2 a ha
+    simp [hnil] at hC
+
+/-- The only other outcome is the `KeyError` of `graph[destination]`. -/
+theorem C15_ok_iff_closed (g : Graph) : (∃ cs, findCycles g = .ok cs) ↔ closed g = true := by
+  unfold findCycles findCyclesFuel
+  cases hc : closed g
+  · simp
+  · have := (tarjan_final g hc).1.noOof
+    simp [this]
+
+/-- Iteration order of `graph` and of each `graph[node]` (Python dict/set order) does not
+matter: two dicts with the same edges yield the same set of components. -/
+theorem C15_order_independent (g g' : Graph) (cs cs' : List (List Nat))
+    (he : ∀ a b, Edge g a b ↔ Edge g' a b)
+    (h : findCycles g = .ok cs) (h' : findCycles g' = .ok cs') :
+    ∀ C ∈ cs, ∃ C' ∈ cs', ∀ x, x ∈ C ↔ x ∈ C' := by
+  intro C hC
+  obtain ⟨h1, _, _⟩ := C15_tarjan_sccs g cs h
+  obtain ⟨h1', h2', _⟩ := C15_tarjan_sccs g' cs' h'
+  obtain ⟨_, hscc, hcyc⟩ := h1 C hC
+  cases hCe : C with
+  | nil => exact absurd hCe hscc.1
+  | cons a rest =>
+    have haC : a ∈ C := by simp [hCe]
+    obtain ⟨C', hC', haC'⟩ := h2' a ((hcyc a haC).congr (fun x y e => (he x y).mp e))
+    refine ⟨C', hC', fun x => ?_⟩
+    rw [← hCe, hscc.2 a haC x, (h1' C' hC').2.1.2 a haC' x]
+    exact ⟨fun m => ⟨m.1.congr (fun x y e => (he x y).mp e), m.2.congr (fun x y e => (he x y).mp e)⟩,
+           fun m => ⟨m.1.congr (fun x y e => (he x y).mpr e), m.2.congr (fun x y e => (he x y).mpr e)⟩⟩
+
+/-- Non-vacuity (tests by evaluation): two SCCs joined by a bridge plus a self-loop and an
+acyclic tail; the self-loop alone; an acyclic chain (no component); a dangling edge. -/
+example : findCycles [(0, [1]), (1, [2]), (2, [0, 3]), (3, [4]), (4, [3]), (5, [5]), (6, [5])]
+    = .ok [[4, 3], [2, 1, 0], [5]] := by decide
+example : findCycles [(0, [1]), (1, [2]), (2, [])] = .ok [] := by decide
+example : findCycles [(0, [1])] = .keyError := by decide
+example : cyclic [(0, [1]), (1, [0])] 0 :=
+  .step (b := 1) (by decide) (.single (by decide))
 
 end Emboss.Deps
